@@ -40,6 +40,19 @@ fn grid(lo: i32, hi: i32, smax: u32) -> Vec<Rectangle> {
     v
 }
 
+/// Rectangle::contains (inherent) as 0 / 1; 2 if the hit test through the ContainsPoint trait gives another answer
+fn contains_both(r: &Rectangle, p: Point) -> i32 {
+    fn via<S: embedded_graphics::primitives::ContainsPoint>(s: &S, p: Point) -> bool {
+        s.contains(p)
+    }
+    let a = r.contains(p);
+    if via(r, p) != a {
+        2
+    } else {
+        a as i32
+    }
+}
+
 fn unary(rec: &mut Rec, r: &Rectangle, sizes: &[(u32, u32)], offs: &[i32]) {
     let small = r.size.width <= 12 && r.size.height <= 12;
     let mut probes = vec![];
@@ -47,7 +60,7 @@ fn unary(rec: &mut Rec, r: &Rectangle, sizes: &[(u32, u32)], offs: &[i32]) {
     if small {
         let g = rect(r.top_left.x - 1, r.top_left.y - 1, r.size.width + 2, r.size.height + 2);
         for p in g.points() {
-            probes.push(json!([p.x, p.y, r.contains(p) as i32]));
+            probes.push(json!([p.x, p.y, contains_both(r, p)]));
         }
     } else {
         // corner neighbourhoods only
@@ -56,7 +69,7 @@ fn unary(rec: &mut Rec, r: &Rectangle, sizes: &[(u32, u32)], offs: &[i32]) {
         for &x in &xs {
             for &y in &ys {
                 let p = Point::new(x, y);
-                probes.push(json!([p.x, p.y, r.contains(p) as i32]));
+                probes.push(json!([p.x, p.y, contains_both(r, p)]));
             }
         }
     }
